@@ -189,6 +189,9 @@ func (m *Model) expand(i *Inst) {
 	}
 	i.ents = []*ent{}
 	for k, e := range i.T.Entries {
+		if e.BadTmpl {
+			continue // renders to nothing: no event, no effect
+		}
 		for _, it := range e.ItemsFor(i.X) {
 			cid := Cid(i.T, k)
 			if it != "" {
